@@ -80,7 +80,7 @@ func Parallel(r *evid.Run, units int, mk func(w *Worker) func(unit int)) {
 					return
 				}
 				if r.Expired() {
-					r.NotExhaustive(fmt.Sprintf("internal deadline reached at unit %d/%d", u, units))
+					r.NotExhaustive(fmt.Sprintf("internal deadline reached in a phase of %d units (the phases after it were cut short or skipped)", units))
 					return
 				}
 				runUnit(r, w, f, u)
